@@ -128,6 +128,7 @@ type Deployed struct {
 	Owner   int // user index, -1 = validator
 	Version int
 	Name    string
+	Variant int // manifest shape (see StoreContractVariant)
 }
 
 // Weights of operation kinds (see Producer.Step).
@@ -150,6 +151,7 @@ type ProducerConfig struct {
 	Stream         uint64
 	Store          storage.Store
 	TolerateReject bool
+	Echidna        bool // also issue the Policy setters introduced with Echidna (block time, MaxValidUntilBlockIncrement, MaxTraceableBlocks)
 }
 
 // Producer builds a chain and records it as serialized blocks.
@@ -486,6 +488,12 @@ func (p *Producer) GenTxs() []*transaction.Transaction {
 			txs = append(txs, tx)
 		}
 	}
+	// pending oracle requests are answered soon (see oracleResponse on why)
+	if w.Oracle > 0 && len(p.oracleReqs) > 0 && r.Intn(2) == 0 {
+		if tx := p.oracleResponse(); tx != nil {
+			txs = append(txs, tx)
+		}
+	}
 	return txs
 }
 
@@ -654,6 +662,28 @@ func (p *Producer) opPolicy() *transaction.Transaction {
 	if p.committee() == nil {
 		return nil
 	}
+	if p.Cfg.Echidna && r.Intn(4) == 0 {
+		// Policy settings introduced with Echidna; before it the calls fault.
+		mtb, vub := int64(p.BC.GetMaxTraceableBlocks()), int64(p.BC.GetMaxValidUntilBlockIncrement())
+		switch r.Intn(3) {
+		case 0:
+			return p.Call("set-ms-per-block", p.committee(), p.PolH, "setMillisecondsPerBlock", int64(1+r.Intn(30000)))
+		case 1:
+			// any value below MaxTraceableBlocks is legal; one above is refused
+			return p.Call("set-max-vub-increment", p.committee(), p.PolH, "setMaxValidUntilBlockIncrement", int64(1)+int64(r.Intn(int(mtb))))
+		default:
+			// may only shrink and must stay above the increment: shrink by 0..2,
+			// never below 6 (sometimes an illegal value: the call faults)
+			v := mtb - int64(r.Intn(3))
+			if v < 6 {
+				v = mtb
+			}
+			if r.Intn(6) == 0 {
+				v = vub
+			}
+			return p.Call("set-max-traceable-blocks", p.committee(), p.PolH, "setMaxTraceableBlocks", v)
+		}
+	}
 	switch r.Intn(8) {
 	case 6, 7:
 		return p.opWhitelist()
@@ -802,11 +832,12 @@ func (p *Producer) opDeploy() *transaction.Transaction {
 	}
 	p.names++
 	name := fmt.Sprintf("st%d", p.names)
-	c := StoreContractVariant(p.T, u.Hash(), name, 1, p.manifestVariant())
+	variant := p.manifestVariant()
+	c := StoreContractVariant(p.T, u.Hash(), name, 1, variant)
 	mb, _ := json.Marshal(c.Manifest)
 	nb, _ := c.NEF.Bytes()
 	tx := p.Call("deploy", []neotest.Signer{u.S}, p.MgmtH, "deploy", nb, mb, nil)
-	d := &Deployed{Hash: c.Hash, Owner: u.Idx, Version: 1, Name: name}
+	d := &Deployed{Hash: c.Hash, Owner: u.Idx, Version: 1, Name: name, Variant: variant}
 	p.pending[tx.Hash()] = func() { p.Live = append(p.Live, d); p.Deploys++ }
 	return tx
 }
@@ -842,11 +873,12 @@ func (p *Producer) opUpdate() *transaction.Transaction {
 	}
 	u := p.Users[d.Owner]
 	ver := 3 - d.Version
-	c := StoreContractVariant(p.T, u.Hash(), d.Name, ver, p.manifestVariant())
+	variant := p.manifestVariant()
+	c := StoreContractVariant(p.T, u.Hash(), d.Name, ver, variant)
 	mb, _ := json.Marshal(c.Manifest)
 	nb, _ := c.NEF.Bytes()
 	tx := p.Call("update", []neotest.Signer{u.S}, d.Hash, "update", nb, mb)
-	p.pending[tx.Hash()] = func() { d.Version = ver }
+	p.pending[tx.Hash()] = func() { d.Version, d.Variant = ver, variant }
 	return tx
 }
 
@@ -981,6 +1013,15 @@ func (p *Producer) opOracle() *transaction.Transaction {
 		return nil
 	}
 	d := p.Live[r.Intn(len(p.Live))]
+	if r.Intn(4) != 0 {
+		// mostly through a contract that may call the Oracle at all
+		for _, c := range p.Live {
+			if c.Variant == 0 {
+				d = c
+				break
+			}
+		}
+	}
 	url := fmt.Sprintf("https://example.org/%d", r.Intn(3)) // few URLs: several ids per URL list
 	var filter any
 	if r.Intn(2) == 0 {
@@ -994,7 +1035,7 @@ func (p *Producer) opOracle() *transaction.Transaction {
 		data = []any{int64(2), p.Plan(3, true)}
 	}
 	gas := int64(1000_0000)
-	switch r.Intn(4) {
+	switch r.Intn(8) {
 	case 0:
 		gas = 999_9999 // below the minimum: the request faults
 	case 1:
